@@ -68,6 +68,11 @@ add("C03", "runtime monitor: provenance oracle over frames injected into a real 
     "Mutations that leave tbsData, signer and signature identical after decoding (encoding slack, trailing octets, unsigned basic header / hashId) may be delivered; exceptions count as not delivered (C04); python-ecdsa trusted.",
     "DESIGN.md 3/C03")
 
+add("C05", "runtime monitor: acceptance oracle (honest by construction) and TS 103 097 clause 7.1 profile acceptor over every envelope emitted by real stations",
+    "Exploration: 2-6 real stations with itsGnSecurity ENABLED and real SignService/VerifyService/CertificateLibrary (own ticket under a common root and AA) exchange CAM- and VAM-profile SHBs at 1-10 Hz, DENM-profile GBCs and generic-profile SHBs over 7 s of virtual time; stations join at arbitrary phases of the senders' certificate timers; receivers know only root+AA or are pre-loaded with peer tickets. Every emitted envelope is decoded with the OER coder and judged against the profile rules (signer certificate when more than 1 s since last inclusion or when a peer asked through inlineP2pcdRequest, DENM always certificate with generationLocation, psid/generationTime present, forbidden header fields absent, signer = own ticket); every (message, receiver) pair is judged: must be indicated exactly once with the signed payload when it carries the certificate or the ticket is known, else within two further CAM/VAMs of the sender after the receiver's own next CAM reached it.",
+    "All stations share root and AA; the certificate rule is judged in the 'must include' direction; generationTime is compared with the virtual clock within 2 s.",
+    "DESIGN.md 3/C05")
+
 NOT_YET = "check not built yet (work in progress; runtime monitor planned in DESIGN.md section 3)"
 
 def main():
